@@ -128,7 +128,8 @@ def run_impl(lines):
 
 # ------------------------------------------------------------------ syntax
 def hexs(s):
-    return s.encode().hex() if isinstance(s, str) else bytes(s).hex()
+    # surrogateescape: a str may carry raw non-UTF-8 bytes (a directory name that is not UTF-8)
+    return s.encode("utf-8", "surrogateescape").hex() if isinstance(s, str) else bytes(s).hex()
 
 def sh_str(s):
     """shape tuple -> compact syntax"""
@@ -683,4 +684,150 @@ def dist_summary(dist, top=30):
         out[scope] = {"input_classes": len(ins), "largest_input_classes": dict(ins[:top]),
                       "smallest_input_classes": dict(ins[-5:]) if len(ins) > top else {},
                       "result_classes": dict(sorted(d["out"].items(), key=lambda kv: -kv[1])[:20])}
+    return out
+
+
+# ------------------------------------------------------------------ scale / rare-feature stream
+def scale_families():
+    """families of RELATED documents at unusual scale or with rare features: wide objects / arrays / tuples /
+    arrays of objects, long chains of nesting (below the documented caps: 256 text, 128 serde_json), long keys,
+    keys sharing long prefixes or differing in case only, non-ASCII and odd code points in keys.  Random small
+    documents never reach a threshold such as 'more than 16 members' or 'key longer than 32 bytes'; members of
+    one family differ in ONE place, so merging / comparing them exercises the interesting arms at that scale."""
+    sc = ['1', 's', 't']
+    fams = {}
+    def obj(n, f=lambda i: sc[i % 3], keyf=lambda i: "k%03d" % i):
+        return tuple((keyf(i), f(i)) for i in range(n))
+    for n in (9, 17, 33, 65, 130, 257):
+        fams["wide_object_%d" % n] = [obj(n), obj(n, lambda i: sc[(i + 1) % 3] if i == n - 1 else sc[i % 3]),
+                                      obj(n - 1), obj(n + 1), obj(n, lambda i: None if i == n // 2 else sc[i % 3])]
+    for n in (9, 10, 12, 17, 33, 65):
+        # same member count, same first and last name, ONE middle name different (and a value kind changed elsewhere)
+        mid = n // 2
+        fams["renamed_member_%d" % n] = [obj(n), obj(n, keyf=lambda i: "k%03dx" % i if i == mid else "k%03d" % i),
+                                         obj(n, lambda i: sc[(i + 1) % 3] if i == 1 else sc[i % 3],
+                                             keyf=lambda i: "k%03dx" % i if i == mid + 1 else "k%03d" % i)]
+    for n in (254, 255, 256, 257, 299, 513, 1025):
+        full = (('a', '1'), ('b', 's'))
+        fams["array_objects_one_missing_%d" % n] = [[full] * n + [(('a', '1'),)], [(('a', '1'),)] + [full] * n,
+                                                    [full] * (n // 2) + [(('a', '1'),)] + [full] * (n - n // 2),
+                                                    [full] * n + [(('a', '1'), ('c', 't'))], [full] * (n + 1)]
+    for n in (13, 17, 33, 65, 129, 257, 1025):
+        fams["wide_array_%d" % n] = [['1'] * n, ['1'] * (n - 1) + ['s'], ['1'] * (n - 1) + [None], ['s'] + ['1'] * (n - 1),
+                                     ['1'] * (n + 1)]
+    for n in (13, 17, 33, 65, 129):
+        t = [sc[i % 3] for i in range(n)]
+        fams["wide_tuple_%d" % n] = [t, t[:-1] + [None], t[:-1], t + ['1'], [None] + t[1:], list(reversed(t))]
+    for n in (9, 17, 33, 65, 129):
+        fams["array_of_%d_objects" % n] = [[(('a', '1'), ('k%d' % (i % 7), 's')) for i in range(n)],
+                                           [(('a', '1'), ('k%d' % (i % 11), 's')) for i in range(n)],
+                                           [(('a', '1'),)] * n + [(('z', 't'),)],
+                                           [(('a', '1'), ('k%d' % i, 's')) for i in range(n)]]
+    def chain(kind, d, leaf):
+        x = leaf
+        for i in range(d):
+            k = kind if kind != "mixed" else ("arr", "obj", "tup")[i % 3]
+            x = [x] if k == "arr" else ((('a', x),) if k == "obj" else [x, 's'])
+        return x
+    for d in (5, 8, 12, 16, 24, 32, 48, 64, 100, 120):
+        for kind in ("arr", "obj", "tup", "mixed"):
+            fams["chain_%s_%d" % (kind, d)] = [chain(kind, d, '1'), chain(kind, d, 's'), chain(kind, d, None), chain(kind, d - 1, '1')]
+    for L in (23, 24, 25, 31, 32, 33, 63, 64, 65, 255, 256, 257, 1000, 5000):
+        k = 'k' * L
+        fams["long_key_%d" % L] = [((k, '1'),), ((k, 's'),), ((k + 'x', '1'),), ((k[:-1], '1'), (k, '1')), ((k, '1'), (k + 'x', 's'))]
+    p = "shared_prefix_" * 6
+    fams["prefix_keys"] = [((p + 'a', '1'), (p + 'b', 's')), ((p + 'a', 's'), (p + 'b', 's')), ((p + 'a', '1'),), ((p + 'b', 's'), (p + 'c', 't')),
+                           ((p, '1'), (p + 'a', '1'))]
+    fams["case_keys"] = [(('KEY', 't'), ('Key', '1'), ('key', 's')), (('Key', '1'),), (('key', '1'),), (('KEY', 't'), ('key', 's')),
+                         (('KEY', 's'), ('Key', 's'), ('key', 's'))]
+    odd = ['\u00e9', '\u00e9e', 'e\u0301', '\u65e5\u672c', '\U0001f600', 'a\u2028b', '\u007f', '\uffff', '\u00a0', 'a b', '', ' ', '/', '\u0080', '\u07ff', '\u0800', '\ud7ff', '\ue000', '\U00010000', '\U0010ffff']
+    # (keys needing an escape - quote, backslash, control characters - cannot travel through the document-level
+    # protocol, whose renderer writes keys raw; they are the business of the text-level checks C04 / C07)
+    fams["odd_keys"] = [tuple(sorted(((k, '1') for k in odd), key=lambda kv: kv[0].encode())),
+                        tuple(sorted(((k, 's') for k in odd[::2]), key=lambda kv: kv[0].encode())),
+                        tuple(sorted(((k, '1') for k in odd[1::2]), key=lambda kv: kv[0].encode()))] + [((k, '1'),) for k in odd[:8]]
+    return fams
+
+def scale_docs():
+    return [d for f in scale_families().values() for d in f]
+
+def scale_seqs(max_len=4):
+    """source sequences over the scale families: every member alone, twice, every ordered pair inside a family,
+    each family as a whole (both orders), and many repetitions of few documents (33, 65, 257 sources)"""
+    out = []
+    for name, f in scale_families().items():
+        out += [[d] for d in f] + [[d, d] for d in f[:2]]
+        out += [[a, b] for a in f for b in f if a is not b]
+        out += [list(f), list(reversed(f))]
+    small = [['1'], ['1', 's'], (('a', '1'),), (('a', 's'), ('b', '1')), None, [], [(('a', '1'),), (('b', 's'),)]]
+    for n in (33, 65, 257):
+        out.append([small[i % len(small)] for i in range(n)])
+        out.append([small[(i * i) % 3] for i in range(n)])
+    return out
+
+_SCALE_CACHE = {}
+
+def scale_shape_pools():
+    """per scale family: the distinct shapes the MODEL infers from its members and from every pair of members
+    (at most 12 per family) - inputs for the checks that quantify over pairs of shapes"""
+    if "pools" not in _SCALE_CACHE:
+        fams = scale_families()
+        lines, owner = [], []
+        for name, f in fams.items():
+            ds = [doc_str(d) for d in f]
+            for a in ds:
+                lines.append("from_sources\t" + a); owner.append(name)
+            for a in ds:
+                for b in ds:
+                    if a != b:
+                        lines.append("from_sources\t%s\t%s" % (a, b)); owner.append(name)
+        pools = {}
+        for name, r in zip(owner, run_model(lines)):
+            if r.startswith("OK "):
+                p = pools.setdefault(name, [])
+                if r[3:] not in p and len(p) < 12:
+                    p.append(r[3:])
+        _SCALE_CACHE["pools"] = pools
+    return _SCALE_CACHE["pools"]
+
+def scale_shapes():
+    """distinct shape strings of the scale stream"""
+    return list(dict.fromkeys(t for p in scale_shape_pools().values() for t in p))
+
+def scale_shape_pairs():
+    """ordered pairs of shape strings inside each scale family (related shapes: one is often a widening of the other)"""
+    return [(a, b) for p in scale_shape_pools().values() for a in p for b in p]
+
+
+def respell(rng, k, p=0.45):
+    """another JSON spelling of the same member name / string: each character raw or as an escape (\\uXXXX in
+    either hex case, a surrogate pair above U+FFFF, the two-character escapes)"""
+    short = {'"': '\\"', '\\': '\\\\', '/': '\\/', '\b': '\\b', '\f': '\\f', '\n': '\\n', '\r': '\\r', '\t': '\\t'}
+    out = []
+    for ch in k:
+        c = ord(ch)
+        must = ch in '"\\' or c < 0x20
+        if not must and rng.random() >= p:
+            out.append(ch)
+            continue
+        if ch in short and rng.random() < 0.5:
+            out.append(short[ch])
+            continue
+        fmt = rng.choice(["\\u%04x", "\\u%04X"])
+        if c >= 0x10000:
+            c -= 0x10000
+            out.append(fmt % (0xD800 + (c >> 10)) + fmt % (0xDC00 + (c & 0x3FF)))
+        else:
+            out.append(fmt % c)
+    return "".join(out)
+
+def key_docs():
+    """documents whose member names exercise the decoding of names: astral characters, U+2028, DEL, U+FFFF,
+    combining marks, long names, shared prefixes, case-only differences"""
+    f = scale_families()
+    out = []
+    for name in ("odd_keys", "case_keys", "prefix_keys", "long_key_33", "long_key_257"):
+        out += f[name]
+    out += [(('\U0001d11e', '1'), ('k', (('\U00010000', 's'), ('\U0010ffff', [(('\u2028', '1'),), (('\u2028', '1'), ('\U0001f600', 't'))])))),
+            [(('\U0001f600', '1'),), (('\U0001f600', '1'), ('\u00e9', 's'))]]
     return out
